@@ -10,16 +10,22 @@ import (
 	"errors"
 	"flag"
 	"fmt"
+	"io"
 	"io/fs"
+	"log"
 	"math/rand"
+	"net/http/httptest"
 	"os"
 	"strconv"
 	"strings"
+	"sync"
 
 	"github.com/google/go-containerregistry/pkg/name"
+	"github.com/google/go-containerregistry/pkg/registry"
 	v1 "github.com/google/go-containerregistry/pkg/v1"
 	"github.com/google/go-containerregistry/pkg/v1/empty"
 	"github.com/google/go-containerregistry/pkg/v1/mutate"
+	"github.com/google/go-containerregistry/pkg/v1/remote"
 	"github.com/google/go-containerregistry/pkg/v1/tarball"
 	"github.com/google/osv-scalibr/artifact/image/layerscanning/image"
 	"github.com/google/osv-scalibr/artifact/image/require"
@@ -36,7 +42,7 @@ type ent struct {
 
 type tcase struct {
 	dmax int
-	hist string // config history of the image: H N S G E X, optionally followed by t (load through FromTarball)
+	hist string // config history mode (one of histModes) + flags: t load through FromTarball, r through FromRemoteName, q requirer = the link entries only
 	ents []ent
 }
 
@@ -47,7 +53,13 @@ type tcase struct {
 //	N  no history at all                                                        -> history ignored (fallback)
 //	S  last entry missing        G  one extra non-empty entry                   -> fallback
 //	X  empty-layer entries and a missing layer entry                            -> fallback
-const histModes = "HENSGX"
+//	C  the image's ConfigFile() fails                                           -> no history: fallback
+const histModes = "HENSGXC"
+
+// emitRequirer: generate cases with flag q (requirer = the link entries only; the final view is pruned by
+// removeUnnecessaryFileNodes). Off until the repair of the pruning loop is in /repo: on the unrepaired tree a required
+// symlink that another required symlink reaches first (map iteration order!) loses its own targets (fix-c17-cov/1.diff).
+const emitRequirer = false
 
 func hexs(s string) string { return hex.EncodeToString([]byte(s)) }
 
@@ -82,7 +94,7 @@ func parseCase(l string) tcase {
 	c := tcase{dmax: d, hist: "H"}
 	if len(t) == 4 {
 		c.hist = t[2]
-		if len(c.hist) < 1 || len(c.hist) > 2 || !strings.Contains(histModes, c.hist[:1]) || (len(c.hist) == 2 && c.hist[1] != 't') {
+		if len(c.hist) < 1 || !strings.Contains(histModes, c.hist[:1]) || strings.Trim(c.hist[1:], "trq") != "" {
 			panic("bad history token: " + l)
 		}
 	}
@@ -137,6 +149,10 @@ func run(c tcase) string {
 			case 'Y':
 				l0 = append(l0, tarEnt{e.name, tar.TypeSymlink, "", e.link})
 				l1 = append(l1, tarEnt{whName(e.name), tar.TypeReg, "", ""})
+			case 'Z':
+				// a directory with a child, deleted as a whole by layer 1 (the child is then hidden below a whiteout)
+				l0 = append(l0, tarEnt{e.name + "/", tar.TypeDir, "", ""}, tarEnt{e.name + "/c", tar.TypeReg, "x", ""})
+				l1 = append(l1, tarEnt{whName(e.name), tar.TypeReg, "", ""})
 			case 'H':
 				// a tar hard link: Linkname is the name of another archive entry (relative to the image root)
 				l0 = append(l0, tarEnt{e.name, tar.TypeLink, "", e.link})
@@ -146,8 +162,9 @@ func run(c tcase) string {
 		}
 		l1 = append(l1, tarEnt{"keep", tar.TypeReg, "k", ""})
 		img, wantChain := buildImage(c.hist[0], mkLayer(l0), mkLayer(l1))
-		tarPath := ""
-		if len(c.hist) == 2 { // load through image.FromTarball: the image goes through a docker-save tarball first
+		flags := c.hist[1:]
+		tarPath, remoteRef := "", ""
+		if strings.Contains(flags, "t") { // load through image.FromTarball: the image goes through a docker-save tarball first
 			f, err := os.CreateTemp("", "c17-*.tar")
 			if err != nil {
 				panic(err)
@@ -162,15 +179,39 @@ func run(c tcase) string {
 			if err := tarball.WriteToFile(tarPath, tag, img); err != nil {
 				panic(err)
 			}
+		} else if strings.Contains(flags, "r") { // load through image.FromRemoteName: pushed to an in-process registry first
+			remoteRef = pushToLocalRegistry(img)
 		}
+		// requirer: everything, or (flag q) only the link entries - their targets must then survive the pruning of the final view
+		var requirer require.FileRequirer = &require.FileRequirerAll{}
+		if strings.Contains(flags, "q") {
+			var links []string
+			for _, e := range c.ents {
+				if e.kind == 'L' || e.kind == 'Y' || e.kind == 'H' {
+					links = append(links, "/"+e.name)
+				}
+			}
+			requirer = require.NewFileRequirerPaths(links)
+		}
+		names := make([]string, 0, len(c.ents)+1)
+		for _, e := range c.ents {
+			names = append(names, e.name)
+		}
+		names = append(names, ".") // the root, spelled the way the walker does
 		var out []string
 		for d := 0; d <= c.dmax; d++ {
-			cfg := &image.Config{MaxFileBytes: 1 << 20, MaxSymlinkDepth: d, Requirer: &require.FileRequirerAll{}}
+			cfg := &image.Config{MaxFileBytes: 1 << 20, MaxSymlinkDepth: d, Requirer: requirer}
+			if d == image.DefaultMaxSymlinkDepth && !strings.Contains(flags, "q") {
+				cfg = image.DefaultConfig()
+			}
 			var im *image.Image
 			var err error
-			if tarPath != "" {
+			switch {
+			case tarPath != "":
 				im, err = image.FromTarball(tarPath, cfg)
-			} else {
+			case remoteRef != "":
+				im, err = image.FromRemoteName(remoteRef, cfg)
+			default:
 				im, err = image.FromV1Image(img, cfg)
 			}
 			if err != nil {
@@ -180,6 +221,13 @@ func run(c tcase) string {
 			if err != nil || len(cls) != wantChain {
 				im.CleanUp()
 				return fmt.Sprintf("chainlen%d", len(cls))
+			}
+			if d == 0 {
+				ix := make([]string, len(cls))
+				for i, cl := range cls {
+					ix[i] = strconv.Itoa(cl.Index())
+				}
+				out = append(out, "ix="+strings.Join(ix, "."))
 			}
 			// view 0 = the last chain layer before the one of layer 1 (layer 0's own, or the empty layer that
 			// follows it), view 1 = the last chain layer (layer 1's own, or a trailing empty layer)
@@ -195,15 +243,16 @@ func run(c tcase) string {
 			var views []string
 			for _, vi := range []int{second - 1, len(cls) - 1} {
 				fsys := cls[vi].FS()
-				toks := make([]string, len(c.ents))
-				for i, e := range c.ents {
-					var s, o, r string
-					if fi, err := fsys.Stat(e.name); err != nil {
+				layerFS := cls[vi].Layer().FS() // the layer's OWN file system: only its diff, symlinks not followed
+				toks := make([]string, len(names))
+				for i, nm := range names {
+					var s, o, r, y string
+					if fi, err := fsys.Stat(nm); err != nil {
 						s = errClass(err)
 					} else {
 						s = infoTok(fi)
 					}
-					if f, err := fsys.Open(e.name); err != nil {
+					if f, err := fsys.Open(nm); err != nil {
 						o = errClass(err)
 					} else {
 						if fi, err := f.Stat(); err != nil {
@@ -213,7 +262,7 @@ func run(c tcase) string {
 						}
 						f.Close()
 					}
-					if des, err := fsys.ReadDir(e.name); err != nil {
+					if des, err := fsys.ReadDir(nm); err != nil {
 						r = errClass(err)
 					} else {
 						ns := make([]string, len(des))
@@ -222,7 +271,16 @@ func run(c tcase) string {
 						}
 						r = "l" + strings.Join(ns, "_")
 					}
-					toks[i] = s + "." + o + "." + r
+					if fi, err := layerFS.Stat(nm); err != nil {
+						y = errClass(err)
+					} else if fi.Mode()&fs.ModeSymlink != 0 {
+						y = "l"
+					} else if fi.IsDir() {
+						y = "d"
+					} else {
+						y = "f"
+					}
+					toks[i] = s + "." + o + "." + r + "." + y
 				}
 				views = append(views, strings.Join(toks, ","))
 			}
@@ -231,6 +289,98 @@ func run(c tcase) string {
 		}
 		return strings.Join(out, " ")
 	})
+}
+
+// ---------------------------------------------------------------- an in-process registry for FromRemoteName
+
+var (
+	regOnce sync.Once
+	regHost string
+	regSeq  int
+)
+
+func pushToLocalRegistry(img v1.Image) string {
+	regOnce.Do(func() {
+		srv := httptest.NewServer(registry.New(registry.Logger(log.New(io.Discard, "", 0))))
+		regHost = strings.TrimPrefix(srv.URL, "http://")
+	})
+	regSeq++
+	ref := fmt.Sprintf("%s/verif/c17:case%d", regHost, regSeq)
+	tag, err := name.NewTag(ref)
+	if err != nil {
+		panic(err)
+	}
+	if err := remote.Write(tag, img); err != nil {
+		panic(err)
+	}
+	return ref
+}
+
+// failingLayers / failingBlob: images whose layer list, resp. layer contents, cannot be read.
+type failingLayers struct{ v1.Image }
+
+func (failingLayers) Layers() ([]v1.Layer, error) { return nil, errors.New("verif: no layers") }
+
+type failingBlob struct{ v1.Layer }
+
+func (failingBlob) Uncompressed() (io.ReadCloser, error) { return nil, errors.New("verif: no blob") }
+
+type failingBlobs struct{ v1.Image }
+
+func (f failingBlobs) Layers() ([]v1.Layer, error) {
+	ls, err := f.Image.Layers()
+	for i := range ls {
+		ls[i] = failingBlob{ls[i]}
+	}
+	return ls, err
+}
+
+// runProbe: what the loader's entry points do with unusable inputs (one case per run): the three invalid configs
+// (negative symlink depth, no byte limit, no requirer) and a valid one, a missing tarball, an image whose layer list /
+// layer contents cannot be read, and the empty image.
+func runProbe() string {
+	return hx.Guard(func() string {
+		img, _ := buildImage('H', mkLayer([]tarEnt{{"a", tar.TypeReg, "x", ""}}), mkLayer([]tarEnt{{"keep", tar.TypeReg, "k", ""}}))
+		load := func(im v1.Image, cfg *image.Config) (string, int) {
+			res, err := image.FromV1Image(im, cfg)
+			switch {
+			case errors.Is(err, image.ErrInvalidConfig):
+				return "i", 0
+			case err != nil:
+				return "e", 0
+			}
+			defer res.CleanUp()
+			cls, _ := res.ChainLayers()
+			return "o", len(cls)
+		}
+		all := &require.FileRequirerAll{}
+		var cfg string
+		for _, c := range []*image.Config{
+			{MaxFileBytes: 1 << 20, MaxSymlinkDepth: -1, Requirer: all},
+			{MaxFileBytes: 0, MaxSymlinkDepth: 0, Requirer: all},
+			{MaxFileBytes: 1 << 20, MaxSymlinkDepth: 0, Requirer: nil},
+			{MaxFileBytes: 1 << 20, MaxSymlinkDepth: 0, Requirer: all},
+		} {
+			r, _ := load(img, c)
+			cfg += r
+		}
+		ok := &image.Config{MaxFileBytes: 1 << 20, MaxSymlinkDepth: 3, Requirer: all}
+		tb := "o"
+		if _, err := image.FromTarball("/nonexistent/verif-c17.tar", ok); err != nil {
+			tb = "e"
+		}
+		ly, _ := load(failingLayers{img}, ok)
+		un, _ := load(failingBlobs{img}, ok)
+		em, n := load(empty.Image, ok)
+		return fmt.Sprintf("cfg=%s tb=%s ly=%s un=%s empty=%s%d", cfg, tb, ly, un, em, n)
+	})
+}
+
+// failingConfig: an image whose config file cannot be read (the loader then has no history at all).
+type failingConfig struct{ v1.Image }
+
+func (failingConfig) ConfigFile() (*v1.ConfigFile, error) {
+	return nil, errors.New("verif: no config file")
 }
 
 // buildImage puts the two layers under a config history of the given mode; it returns the number of chain
@@ -259,6 +409,9 @@ func buildImage(mode byte, l0, l1 v1.Layer) (v1.Image, int) {
 	img = add(img, mutate.Addendum{Layer: l1, History: v1.History{CreatedBy: "l1"}})
 	if mode == 'H' {
 		return img, 2
+	}
+	if mode == 'C' {
+		return failingConfig{img}, 2
 	}
 	cf, err := img.ConfigFile()
 	if err != nil {
@@ -361,6 +514,9 @@ func exhaustive(k, part, of, dmax int, emit func(tcase)) {
 			}
 			continue
 		}
+		if emitRequirer && code%5 == 0 {
+			c.hist += "q" // every fifth graph: the requirer wants the link entries only (the final view is pruned)
+		}
 		emit(c) // 4 and 5 names: the history mode rotates with the enumeration index
 	}
 }
@@ -435,8 +591,16 @@ func randHardLink(r *rand.Rand, names []string) string {
 
 func randCase(r *rand.Rand, dmax int) tcase {
 	c := tcase{dmax: dmax, hist: string(histModes[r.Intn(len(histModes))])}
-	if r.Intn(12) == 0 {
-		c.hist += "t"
+	if c.hist != "C" { // an image without a readable config cannot be written to a tarball or pushed
+		switch r.Intn(25) {
+		case 0, 1:
+			c.hist += "t"
+		case 2:
+			c.hist += "r"
+		}
+	}
+	if emitRequirer && r.Intn(6) == 0 {
+		c.hist += "q"
 	}
 	if r.Intn(10) < 4 {
 		// a long chain: entry i links to entry i+1; the last one is terminal, missing, deleted or closes a cycle
@@ -491,8 +655,10 @@ func randCase(r *rand.Rand, dmax int) tcase {
 			e.kind = 'D'
 		case x < 33:
 			e.kind = 'M'
-		case x < 43:
+		case x < 40:
 			e.kind = 'X'
+		case x < 43:
+			e.kind = 'Z'
 		case x < 48:
 			e.kind, e.link = 'Y', randLink(r, nm, names)
 		case x < 57:
@@ -529,6 +695,14 @@ func main() {
 				lines = append(lines, randCase(r, *dmax).line())
 			}
 		}
-		imgx.RunAll(lines, func(l string) string { return run(parseCase(l)) }, scratch, *inproc, out)
+		if o.Replay == "" {
+			lines = append([]string{"probe"}, lines...)
+		}
+		imgx.RunAll(lines, func(l string) string {
+			if l == "probe" {
+				return runProbe()
+			}
+			return run(parseCase(l))
+		}, scratch, *inproc, out)
 	})
 }
